@@ -42,6 +42,9 @@ theorem frameSame_popEdge (env : Env) (s : St) (n : Node) : FrameSame s (s.popEd
     · exact FrameSame.refl _
 
 /-- reads made by the frame on top of the stack -/
+theorem frameSame_keepExc (s : St) (p : Res × St) : FrameSame p.2 (keepExc s p).2 :=
+  ⟨(keepExc_excOnly s p).stack, (keepExc_excOnly s p).idx, (keepExc_excOnly s p).refstack⟩
+
 def RefsBelow (s : St) : Prop := ∀ e ∈ s.refstack, e.1 < s.stack.length
 
 /-- what a formula body may do to the frame state: push reads of its own frame -/
@@ -118,8 +121,8 @@ theorem evalNode_frame (env : Env) (ef : Node → St → Res × St) (hef : Calle
   · split
     · split
       · exact BodyRel.of_frameSame (frameSame_hitEdge s n)
-      · exact hef n s hr
-    · exact hef n s hr
+      · exact (hef n s hr).trans (BodyRel.of_frameSame (frameSame_keepExc s _))
+    · exact (hef n s hr).trans (BodyRel.of_frameSame (frameSame_keepExc s _))
   · exact BodyRel.of_frameSame ⟨rfl, rfl, rfl⟩
 
 /-! ### draining the reads of the finished frame -/
